@@ -54,6 +54,8 @@ def gen(rng: Any, tier: str, i: int) -> Any:
             case["mgr_outcomes"] = [rng.choice(["ok", "ok", "range", "client", "exc", "hang"]) for _ in range(n_inv)]
             case["mgr_timeout"] = rng.choice([5.0, 1.5, 0.5])
             case["mgr_latency"] = rng.choice([0.0, 0.8]) * case["mgr_timeout"]
+            if rng.random() < 0.5:  # calls answer after different delays (an early error next to a slower success)
+                case["mgr_lat_vec"] = [rng.choice([0.0, 0.0, 0.06, 0.2, 0.8]) * case["mgr_timeout"] for _ in range(n_inv)]
     return case
 
 
@@ -109,6 +111,8 @@ def manager_round(case: dict[str, Any]) -> dict[str, Any]:
     mcase = dict(case, exp=1.0, kind="battery", latency=case.get("mgr_latency", 0.0), followup=False,
                  adjust=case.get("mgr_adjust", True), timeout=case.get("mgr_timeout", 5.0))
     mcase.pop("lat_vec", None)
+    if case.get("mgr_lat_vec"):
+        mcase["lat_vec"] = case["mgr_lat_vec"]
     n = sum(len(g["invs"]) for g in case["groups"])
     out: dict[str, Any] = {"rounds": []}
     vec = case.get("mgr_outcomes") or ["ok"] * n
@@ -154,9 +158,9 @@ def _manager_tier(case: dict[str, Any], rec: Any) -> None:
     commanded = sum(c["watts"] for c in calls)
     succ, exc = res.succeeded_power.as_watts(), res.excess_power.as_watts()
     w.update({"commanded": commanded, "succeeded_power": succ, "excess_power": exc})
-    if abs(commanded + exc - p) > t:
+    if not abs(commanded + exc - p) <= t:  # (NaN-safe)
         rec.violation("manager:commanded-plus-excess-differs-from-request", w)
-    if abs(succ - commanded) > t:
+    if not abs(succ - commanded) <= t:
         rec.violation("manager:reported-set-power-differs-from-commanded-power", w)
     if any(c["watts"] * sgn < -t for c in calls):
         rec.violation("manager:setpoint-sign", w)
